@@ -1108,11 +1108,13 @@ pub fn big_programs() -> Vec<Program> {
     }
     // (6) one trace with 600 spans finished before its root, all delivered by one cycle
     {
-        let mut ops = vec![root(0, "r", 0xB70)];
+        let mut ops = vec![root(0, "r", 0xB70), addprop(0, "early.k", "early.v"), addevent(0, "early.e"), Op::Cycle];
         for k in 0..600u32 {
             ops.push(child(1 + k, &format!("k{k}"), 0));
             ops.push(finish(1 + k));
         }
+        ops.push(Op::Cycle);
+        ops.push(addevent(0, "late.e"));
         ops.push(finish(0));
         out.push(Program::new("BIG-records#1").worker("A", ops).collector(0, true, 0));
     }
@@ -1309,7 +1311,10 @@ pub fn reentrant_programs() -> Vec<Program> {
                 }
                 ops.push(finish(0));
                 let _ = (on, inn);
-                out.push(Program::new(format!("C07-reentrant#{idx}")).worker("A", ops).collector(0, true, 0));
+                out.push(Program::new(format!("C07-reentrant#{idx}")).worker("A", ops.clone()).collector(0, true, 0));
+                // the same with a closure that hands back a lazy iterator (the tracing calls happen
+                // while the library consumes it)
+                out.push(Program::new(format!("C07-reentrant-lazy#{idx}")).worker("A", ops).collector(0, true, 0));
             }
         }
     }
